@@ -804,9 +804,12 @@ let suite_stage t v =
                 let latest p = last_hash (string_of_name p.M.p_name) = Some (string_of_name p.M.p_hash) in
                 let rec lead f = function p :: r when f p -> 1 + lead f r | _ -> 0 in
                 let want = lead latest ps in
-                if int_of_z ia < want then
-                  oracle v "delivered_version_not_recognised" (int_of_z ma < want)
-                else begin
+                if int_of_z ia < want then begin
+                  (* the recorded finding (C05-F1r) needs another version of the name to have been
+                     announced; with one version only it is something else *)
+                  let multi = List.exists (fun p -> List.length (Hashtbl.find_all announced (string_of_name p.M.p_name)) > 1) ps in
+                  oracle v (if multi then "delivered_version_not_recognised" else "delivered_version_not_recognised_single_version") (int_of_z ma < want)
+                end else begin
                   let want2 = lead logged ps in
                   if int_of_z ia < want2 then oracle v "superseded_version_not_recognised" (int_of_z ma < want2)
                 end
@@ -1501,6 +1504,10 @@ let suite_race t v =
    | "ready" ->
        (* received = 0: the recovered file is still waiting for / under validation *)
        if fi "began" = 1 && (fi "full_at_ready" = 1 || fi "state_at_ready" = 0) then oracle v "ready_before_recovery_finished" false
+   | "late" ->
+       (* whatever is put away or held under the name after a stalled duplicate came back is the announced content *)
+       (* recorded finding C01-F2: the scenario is built to exhibit it ("predicted") *)
+       if fi "bad_content" > 0 then oracle v "stalled_duplicate_wrote_into_settled_file" true
    | "storm" ->
        if fi "bad_content" > 0 || fi "bad_log_hash" > 0 then oracle v "delivered_content_not_validated" false;
        if fi "logged_twice" > 0 then oracle v "logged_twice" false;
